@@ -7,6 +7,8 @@ GRPCGCP_INSTR_YIELD = {"gcp_balancer.go": ["-yield"], "gcp_picker.go": ["-yield"
 ENGINES = {
     "poolsim": dict(module="grpcgcp", pkg=".", pkgname="grpcgcp", pkgmarker="grpcgcp.", harness="grpcgcp",
                     files=["poolsim_test.go"], instrument=GRPCGCP_INSTR_CLOCK),
+    "mesim": dict(module="grpcgcp", pkg="multiendpoint", pkgname="multiendpoint", pkgmarker="multiendpoint.", harness="multiendpoint",
+                  files=["mesim_test.go"], kind="sequential virtual-clock simulation of MultiEndpoint vs reference state machine"),
 }
 
 POOLSIM_ESSENTIAL = {
@@ -52,6 +54,22 @@ for pid, rule in [
 ]:
     PROPS[pid] = dict(level="exploration", rule=rule, assumptions=POOL_ASSUME, stages=[poolsim_stage()])
 
+ME_ESSENTIAL = {
+    "C13": ["C13.membership", "C13.unavail-current", "C13.none-available-unchanged", "C13.removed-first", "C13.exact",
+            "C13.empty-rejected", "C13.current-removed", "C13.unknown-endpoint-report"],
+    "C14": ["C14.recovering-stays", "C14.no-switch-in-call", "C14.no-downgrade", "C14.convergence", "C14.timer-fired",
+            "C14.simultaneous-timers", "C14.late-callback", "C14.avail-in-window", "C14.repeat-unavail-in-window"],
+}
+ME_ASSUME = ["time is virtual through the package's own timeNow/timeAfterFunc variables; one goroutine; timer callbacks run as separate steps (simultaneous ones in seeded-shuffled order, optionally late)",
+             "endpoint lists without duplicates"]
+for pid, rule in [
+    ("C13", "seeded random histories of availability reports / list replacements / clock advances over 8 (recovery,delay) configurations; non-trivial = the 'current unavailable while another is available' rule, the exact rule (delay 0) or a removal of the current endpoint was evaluated; distinct = hash of the op log"),
+    ("C14", "seeded random histories as for C13 with late timer callbacks and shuffled simultaneous timers; non-trivial = a timer fired, a better endpoint became available under a switching delay, or a report arrived inside a recovery window; distinct = hash of the op log"),
+]:
+    PROPS[pid] = dict(level="exploration", rule=rule, assumptions=ME_ASSUME,
+                      stages=[dict(name="mesim", engine="mesim", test="TestVerifME", batches=dict(quick=8, thorough=16),
+                                   essential=ME_ESSENTIAL, timeout=dict(quick=900, thorough=7200))])
+
 NOT_APPLICABLE = {}
 
 _POOL_NOTE = ("Trusted: the harness's shadow of the contract, the fake ClientConn/SubConn (gRPC 1.56 calling discipline), the build-time "
@@ -73,3 +91,11 @@ MANIFEST_TEXT["C07"].update(design_ref="DESIGN.md §4, §5 C07", level_text="Exp
 MANIFEST_TEXT["C08"].update(design_ref="DESIGN.md §4, §5 C08", level_text="Exploration: with fallback enabled, every keyed pick on the current picker whose home is not READY must be placed on a READY channel whenever one exists (also saturated, also after the stand-in was refreshed) and must reuse the recorded stand-in while it stays READY; home recovery sends the key home (C01 rule); bindings never change.")
 MANIFEST_TEXT["C09"].update(design_ref="DESIGN.md §4, §5 C09", level_text="Exploration: under ROUND_ROBIN every BIND pick must go to the successor (creation order, cyclic) of the previous BIND's channel while the pool composition is unchanged, must be READY on return unless its context ended; waiting picks are observed parked (goroutine state), released by READY/refresh/cancel/virtual deadline and must then return their assigned channel.")
 MANIFEST_TEXT["C20"].update(design_ref="DESIGN.md §4, §5 C20", level_text="Exploration: the fake SubConns record the last address list given (creation or UpdateAddresses) and Connect calls; after every resolver update every pool connection must carry the latest list and have been asked to connect; connections created by growth or refresh must be created with the latest list; a replacement must carry the latest list when it takes over; ResolverError must cause no boundary call.")
+
+_ME_NOTE = "Trusted: the reference state machine written from the statement, the virtual timer heap (Stop semantics of time.AfterFunc). Held = held on the histories this run generated."
+MANIFEST_TEXT["C13"] = dict(technique="runtime monitoring: reference-state-machine oracle over Current() after every step under a virtual clock",
+    design_ref="DESIGN.md §5 C13", level_note=_ME_NOTE,
+    level_text="Exploration: tens of thousands of seeded histories per run against the real multiEndpoint; after every step membership is checked, at every quiescent instant 'current is not a known-unavailable endpoint while another is available', 'unchanged when nothing is available', 'first of list when removed', and with delay 0 exact equality with the reference rule; empty lists must be rejected without effect.")
+MANIFEST_TEXT["C14"] = dict(technique="runtime monitoring: admissible-set safety rules over Current() transitions + constructed quiescence under a virtual clock",
+    design_ref="DESIGN.md §5 C14", level_note=_ME_NOTE,
+    level_text="Exploration: the same histories judged by safety rules on every transition (recovering current keeps its place, no switch inside the call under a delay, never from an available endpoint to a lower-priority one), with shuffled simultaneous timers and late callbacks; convergence is decided at a constructed quiescent state (timer heap empty).")
